@@ -1,0 +1,35 @@
+//! Verification hooks. Compiled only with the `verif` cargo feature; every
+//! hook is inert unless a harness sets it (task-local scope or global setter),
+//! so enabling the feature alone does not change behaviour.
+
+use parking_lot::Mutex;
+use std::time::Duration;
+
+tokio::task_local! {
+    /// Initial TSN used by the SCTP association whose runner future is polled
+    /// inside this scope (replaces the random draw in `send_init`/`handle_init`).
+    pub static SCTP_INITIAL_TSN: Option<u32>;
+    /// (flight retransmit interval, handshake deadline) for the DTLS transport
+    /// whose runner future is polled inside this scope.
+    pub static DTLS_TIMERS: Option<(Duration, Duration)>;
+}
+
+static GLOBAL_DTLS_TIMERS: Mutex<Option<(Duration, Duration)>> = Mutex::new(None);
+
+/// Process-wide fallback for transports whose runner is spawned by the stack
+/// itself (PeerConnection); the task-local scope wins when both are set.
+pub fn set_global_dtls_timers(timers: Option<(Duration, Duration)>) {
+    *GLOBAL_DTLS_TIMERS.lock() = timers;
+}
+
+pub(crate) fn sctp_initial_tsn() -> Option<u32> {
+    SCTP_INITIAL_TSN.try_with(|v| *v).ok().flatten()
+}
+
+pub(crate) fn dtls_timers() -> Option<(Duration, Duration)> {
+    DTLS_TIMERS
+        .try_with(|v| *v)
+        .ok()
+        .flatten()
+        .or_else(|| *GLOBAL_DTLS_TIMERS.lock())
+}
